@@ -274,6 +274,7 @@ def run(chk):
     from rules import C06
 
     chk.include(C06.run, ("C06.closeonerror",), ("C06.closeonerror", "C02.reuse"))
+    C06.eof_at_completion(chk, repo, rule="C02.eofdone")
     # the Content-Length a client derives from body.size is only truthful if a multipart body's declared size equals the bytes it writes
     # (shared with C19 / C04); the request-head parser's resumable-state rules carry the "however the stream is segmented" clause (shared with C03)
     from rules import C03, C19
@@ -281,6 +282,7 @@ def run(chk):
     from rules import C04
 
     C04.bodiless(chk, repo, rule="C02.bodiless")
+    C04.ioloop(chk, repo, rule="C02.ioloop")
     chk.include(C19.run, ("C19.size",), ("C19.", "C02.multipart."))
     chk.include(C03.run, ("C03.rp", "C03.save", "C03.bufshape", "C03.latch"), ("C03.", "C02.rx."))
 
